@@ -90,12 +90,11 @@ Proof.
     + split.
       * unfold lookrel in *. rewrite !mut_lookup_same, mut_txs.
         destruct (lookup s a), (lookup s' a); simpl; auto.
-      * intros _. apply mut_objs_same. unfold lookrel in L.
+      * intros Hprem. apply mut_objs_same. unfold lookrel in L.
         destruct (lookup s a) eqn:Hl.
         -- destruct (lookup s' a); [discriminate|contradiction].
-        -- (* a not looked-up in s: mut is the identity on s, so objs s a <> None is absurd *)
-           intros Hn. unfold mut in *. rewrite Hl in *.
-           destruct (lookup s' a); [contradiction|]. discriminate.
+        -- exfalso. unfold mut in Hprem. rewrite Hl in Hprem.
+           unfold lookup in Hl. destruct (objs s a); [discriminate|]. apply Hprem; reflexivity.
     + split.
       * unfold lookrel in *. rewrite !mut_lookup_other, mut_txs by assumption. exact L.
       * intros H. apply mut_objs_mono. apply D.
@@ -105,4 +104,296 @@ Proof.
         destruct (objs s x) eqn:Hox; [discriminate|].
         rewrite objs_cached_other in H by assumption. contradiction.
   - intros Hfull. destruct (F Hfull) as [S D]. rewrite !mut_cur, !mut_dirt. split; assumption.
+Qed.
+
+(** ---- basic field facts of undo ---- *)
+Lemma undo_journal e s : journal (undo e s) = journal s.
+Proof.
+  destruct e; try reflexivity;
+    try (pose proof (undo_mut (ESuicide a prev prevbal) s) as H; cbv beta iota in H; rewrite H; apply mut_journal);
+    try (match goal with |- journal (undo ?E s) = _ => pose proof (undo_mut E s) as H; cbv beta iota in H; rewrite H; apply mut_journal end).
+  simpl. destruct (repaired (cf s)); reflexivity.
+Qed.
+Lemma undo_txs e s : txs (undo e s) = txs s.
+Proof.
+  destruct e; try reflexivity;
+    try (match goal with |- txs (undo ?E s) = _ => pose proof (undo_mut E s) as H; cbv beta iota in H; rewrite H; apply mut_txs end).
+  simpl. destruct (repaired (cf s)); reflexivity.
+Qed.
+Lemma undo_cf e s : cf (undo e s) = cf s.
+Proof.
+  destruct e; try reflexivity;
+    try (match goal with |- cf (undo ?E s) = _ => pose proof (undo_mut E s) as H; cbv beta iota in H; rewrite H; apply mut_cf end).
+  simpl. destruct (repaired (cf s)); reflexivity.
+Qed.
+Lemma undo_calls e s : calls (undo e s) = calls s.
+Proof.
+  destruct e; try reflexivity;
+    try (match goal with |- calls (undo ?E s) = _ => pose proof (undo_mut E s) as H; cbv beta iota in H; rewrite H; apply mut_calls end).
+  simpl. destruct (repaired (cf s)); reflexivity.
+Qed.
+Lemma undo_out e s : out (undo e s) = out s.
+Proof.
+  destruct e; try reflexivity;
+    try (match goal with |- out (undo ?E s) = _ => pose proof (undo_mut E s) as H; cbv beta iota in H; rewrite H; apply mut_out end).
+  simpl. destruct (repaired (cf s)); reflexivity.
+Qed.
+
+Lemma pop_undo_cons s e rest :
+  journal s = e :: rest ->
+  pop_undo s = (let s1 := undo e (with_journal s rest) in
+                match dirtied e with None => s1 | Some a => with_dirt s1 (ddec (dirt s1) a) end).
+Proof. intros H. unfold pop_undo. rewrite H. reflexivity. Qed.
+
+Lemma pop_undo_journal s e rest : journal s = e :: rest -> journal (pop_undo s) = rest.
+Proof.
+  intros H. rewrite (pop_undo_cons s e rest H). cbv zeta.
+  destruct (dirtied e); sdb_simp; rewrite undo_journal; reflexivity.
+Qed.
+Lemma pop_undo_nil s : journal s = [] -> pop_undo s = s.
+Proof. intros H. unfold pop_undo. rewrite H. reflexivity. Qed.
+Lemma pop_undo_cf s : cf (pop_undo s) = cf s.
+Proof.
+  unfold pop_undo. destruct (journal s) as [|e r]; [reflexivity|].
+  destruct (dirtied e); sdb_simp; rewrite undo_cf; reflexivity.
+Qed.
+Lemma pop_undo_txs s : txs (pop_undo s) = txs s.
+Proof.
+  unfold pop_undo. destruct (journal s) as [|e r]; [reflexivity|].
+  destruct (dirtied e); sdb_simp; rewrite undo_txs; reflexivity.
+Qed.
+Lemma pop_undo_calls s : calls (pop_undo s) = calls s.
+Proof.
+  unfold pop_undo. destruct (journal s) as [|e r]; [reflexivity|].
+  destruct (dirtied e); sdb_simp; rewrite undo_calls; reflexivity.
+Qed.
+Lemma pop_undo_out s : out (pop_undo s) = out s.
+Proof.
+  unfold pop_undo. destruct (journal s) as [|e r]; [reflexivity|].
+  destruct (dirtied e); sdb_simp; rewrite undo_out; reflexivity.
+Qed.
+
+(** ---- unwind arithmetic ---- *)
+Lemma unwind_k_len k : forall s, (k <= length (journal s))%nat ->
+  length (journal (unwind_k k s)) = (length (journal s) - k)%nat.
+Proof.
+  induction k as [|k IH]; intros s Hk; simpl; [lia|].
+  destruct (journal s) as [|e rest] eqn:Hj; simpl in Hk; [lia|].
+  pose proof (pop_undo_journal s e rest Hj) as Hp.
+  rewrite IH; rewrite Hp; simpl; lia.
+Qed.
+Lemma unwind_len n s : (n <= length (journal s))%nat -> length (journal (unwind n s)) = n.
+Proof. intros H. unfold unwind. rewrite unwind_k_len; lia. Qed.
+Lemma unwind_k_add k1 k2 s : unwind_k (k1 + k2) s = unwind_k k2 (unwind_k k1 s).
+Proof. revert s; induction k1 as [|k1 IH]; intros s; simpl; [reflexivity|apply IH]. Qed.
+Lemma unwind_compose n m s :
+  (n <= m)%nat -> (m <= length (journal s))%nat -> unwind n s = unwind n (unwind m s).
+Proof.
+  intros Hnm Hm. pose proof (unwind_len m s Hm) as Hl.
+  change (unwind n (unwind m s)) with (unwind_k (length (journal (unwind m s)) - n) (unwind m s)).
+  rewrite Hl. unfold unwind.
+  replace (length (journal s) - n)%nat with ((length (journal s) - m) + (m - n))%nat by lia.
+  rewrite unwind_k_add. reflexivity.
+Qed.
+Lemma unwind_id s : unwind (length (journal s)) s = s.
+Proof. unfold unwind. rewrite Nat.sub_diag. reflexivity. Qed.
+Lemma unwind_prefix es j n s' :
+  journal s' = es ++ j -> length j = n -> unwind n s' = unwind_k (length es) s'.
+Proof.
+  intros Hj Hn. unfold unwind. rewrite Hj, app_length, Hn.
+  replace (length es + n - n)%nat with (length es) by lia. reflexivity.
+Qed.
+Lemma unwind_k_calls k : forall s, calls (unwind_k k s) = calls s.
+Proof. induction k; intros s; simpl; [reflexivity|]. rewrite IHk. apply pop_undo_calls. Qed.
+Lemma unwind_calls n s : calls (unwind n s) = calls s. Proof. apply unwind_k_calls. Qed.
+Lemma unwind_k_cf k : forall s, cf (unwind_k k s) = cf s.
+Proof. induction k; intros s; simpl; [reflexivity|]. rewrite IHk. apply pop_undo_cf. Qed.
+Lemma unwind_k_txs k : forall s, txs (unwind_k k s) = txs s.
+Proof. induction k; intros s; simpl; [reflexivity|]. rewrite IHk. apply pop_undo_txs. Qed.
+Lemma unwind_k_out k : forall s, out (unwind_k k s) = out s.
+Proof. induction k; intros s; simpl; [reflexivity|]. rewrite IHk. apply pop_undo_out. Qed.
+
+(** ---- undo is monotone for [rel] ---- *)
+Definition undo_side (full : bool) (sc : addr -> bool) (s : sdb) (e : entry) : Prop :=
+  match e with
+  | ECreate a => full = true \/ sc a = false
+  | EPrecompile _ _ scc => full = true /\ forall a, sc a = true -> scc a = true -> objs s a <> None
+  | _ => True
+  end.
+
+Lemma rel_with_aux full sc s s' x x' :
+  rel full sc s s' -> auxeq x x' -> rel full sc (with_aux s x) (with_aux s' x').
+Proof. intros (J&T&C&X&O&F) H. repeat split; auto; try apply H; try apply O; try apply F; auto. Qed.
+
+Lemma rel_undo full sc s s' e :
+  rel full sc s s' -> repaired (cf s) = true -> undo_side full sc s e ->
+  rel full sc (undo e s) (undo e s').
+Proof.
+  intros HR Hrep Hside. pose proof HR as (J&T&C&X&O&F).
+  destruct e as [a|a p|a ps pb|a pb|a pn|a pc|a k pv|p| |a|a k|sv sd scc].
+  - (* ECreate *)
+    simpl. split; [exact J|]. split; [exact T|]. split; [exact C|]. split; [exact X|]. split.
+    + intros x Hx. destruct (O x Hx) as [L D]. destruct (Z.eq_dec x a) as [->|Hne].
+      * split.
+        -- unfold lookrel. rewrite !lookup_del_same. sdb_simp.
+           destruct Hside as [Hf|Hf]; [|congruence].
+           destruct (F Hf) as [S _]. rewrite <- S.
+           destruct (accs (cur_store s) a); [apply ole_refl|exact I].
+        -- unfold del_obj; sdb_simp. rewrite upd_same. intros Hn; contradiction.
+      * split.
+        -- unfold lookrel in *. rewrite !lookup_del_other by assumption. exact L.
+        -- unfold del_obj; sdb_simp. rewrite !upd_other by assumption. exact D.
+    + intros Hf. destruct (F Hf). split; assumption.
+  - (* EReset *)
+    simpl. split; [exact J|]. split; [exact T|]. split; [exact C|]. split; [exact X|]. split.
+    + intros x Hx. destruct (O x Hx) as [L D]. destruct (Z.eq_dec x a) as [->|Hne].
+      * split.
+        -- unfold lookrel. rewrite !lookup_set_same. apply ole_refl.
+        -- unfold set_obj; sdb_simp. rewrite !upd_same. intros _; discriminate.
+      * split.
+        -- unfold lookrel in *. rewrite !lookup_set_other by assumption. exact L.
+        -- unfold set_obj; sdb_simp. rewrite !upd_other by assumption. exact D.
+    + intros Hf. destruct (F Hf). split; assumption.
+  - pose proof (undo_mut (ESuicide a ps pb) s) as H1; pose proof (undo_mut (ESuicide a ps pb) s') as H2.
+    cbv beta iota in H1, H2. rewrite H1, H2. apply rel_mut; [|exact HR].
+    intros. apply ole_w_bal, ole_w_sui; assumption.
+  - pose proof (undo_mut (EBalance a pb) s) as H1; pose proof (undo_mut (EBalance a pb) s') as H2.
+    cbv beta iota in H1, H2. rewrite H1, H2. apply rel_mut; [|exact HR].
+    intros. apply ole_w_bal; assumption.
+  - pose proof (undo_mut (ENonce a pn) s) as H1; pose proof (undo_mut (ENonce a pn) s') as H2.
+    cbv beta iota in H1, H2. rewrite H1, H2. apply rel_mut; [|exact HR].
+    intros. apply ole_w_nonce; assumption.
+  - pose proof (undo_mut (ECode a pc) s) as H1; pose proof (undo_mut (ECode a pc) s') as H2.
+    cbv beta iota in H1, H2. rewrite H1, H2. apply rel_mut; [|exact HR].
+    intros. apply ole_w_code; assumption.
+  - pose proof (undo_mut (EStorage a k pv) s) as H1; pose proof (undo_mut (EStorage a k pv) s') as H2.
+    cbv beta iota in H1, H2. rewrite H1, H2. apply rel_mut; [|exact HR].
+    intros. apply ole_w_dirty; assumption.
+  - (* ERefund *) simpl. apply rel_with_aux; [exact HR|]. destruct X as (X1&X2&X3&X4). repeat split; auto.
+  - (* ELog *) simpl. apply rel_with_aux; [exact HR|]. destruct X as (X1&X2&X3&X4). repeat split; simpl; auto. congruence.
+  - (* EAccAddr *) simpl. apply rel_with_aux; [exact HR|]. destruct X as (X1&X2&X3&X4). repeat split; simpl; auto.
+    intros x. unfold upd. destruct (Z.eqb x a); auto.
+  - (* EAccSlot *) simpl. apply rel_with_aux; [exact HR|]. destruct X as (X1&X2&X3&X4). repeat split; simpl; auto.
+    intros x y. destruct (Z.eqb x a && Z.eqb y k); auto.
+  - (* EPrecompile *)
+    destruct Hside as [Hf Hwf]. simpl. rewrite <- C, Hrep.
+    split; [exact J|]. split; [exact T|]. split; [exact C|]. split; [exact X|]. split.
+    + intros x Hx. destruct (O x Hx) as [L D]. sdb_simp. split.
+      * unfold lookrel, lookup, cur_store. sdb_simp.
+        destruct (scc x) eqn:Hs.
+        -- (* cached at the snapshot: cached on both sides now *)
+           pose proof (Hwf x Hx Hs) as Hc. pose proof (D Hc) as Hc'.
+           unfold lookrel, lookup in L.
+           destruct (objs s x) as [o|]; [|contradiction]. destruct (objs s' x) as [o'|]; [|contradiction].
+           exact L.
+        -- destruct (accs sv x); [apply ole_refl|exact I].
+      * destruct (scc x); [exact D|intros Hn; contradiction].
+    + intros _. unfold cur_store. sdb_simp. split; [reflexivity|]. intros x. apply dle_refl.
+Qed.
+
+(** ---- pop_undo is monotone ---- *)
+Lemma rel_with_journal full sc s s' j :
+  rel full sc s s' -> rel full sc (with_journal s j) (with_journal s' j).
+Proof. intros (J&T&C&X&O&F). repeat split; auto; try apply X; try apply O; try apply F; auto. Qed.
+
+Lemma rel_ddec full sc s s' a :
+  rel full sc s s' -> rel full sc (with_dirt s (ddec (dirt s) a)) (with_dirt s' (ddec (dirt s') a)).
+Proof.
+  intros (J&T&C&X&O&F). split; [exact J|]. split; [exact T|]. split; [exact C|]. split; [exact X|].
+  split; [exact O|]. intros Hf. destruct (F Hf) as [S D]. split; [exact S|].
+  intros x. sdb_simp. apply dle_ddec. exact D.
+Qed.
+
+Lemma rel_pop_undo full sc s s' e rest :
+  rel full sc s s' -> journal s = e :: rest -> repaired (cf s) = true ->
+  undo_side full sc s e ->
+  rel full sc (pop_undo s) (pop_undo s').
+Proof.
+  intros HR Hj Hrep Hside. pose proof HR as (J&_).
+  rewrite (pop_undo_cons s e rest Hj), (pop_undo_cons s' e rest) by congruence. cbv zeta.
+  assert (H1 : rel full sc (undo e (with_journal s rest)) (undo e (with_journal s' rest))).
+  { apply rel_undo; [apply rel_with_journal; exact HR | exact Hrep |].
+    destruct e; simpl in *; auto. }
+  destruct (dirtied e); [apply rel_ddec|]; exact H1.
+Qed.
+
+(** ---- WFJ is preserved by pop_undo ---- *)
+Lemma undo_objs_mono e s x :
+  (match e with ECreate a => x <> a | EPrecompile _ _ scc => scc x = true | _ => True end) ->
+  repaired (cf s) = true -> objs s x <> None -> objs (undo e s) x <> None.
+Proof.
+  intros Hside Hrep H.
+  destruct e; try exact H;
+    try (match goal with |- objs (undo ?E s) x <> None => pose proof (undo_mut E s) as Hm; cbv beta iota in Hm; rewrite Hm; apply mut_objs_mono; exact H end).
+  - simpl. unfold del_obj; sdb_simp. rewrite upd_other by assumption. exact H.
+  - simpl. unfold set_obj; sdb_simp. unfold upd. destruct (Z.eqb x a); [discriminate|exact H].
+  - simpl. rewrite Hrep. sdb_simp. rewrite Hside. exact H.
+Qed.
+
+Lemma WFJ_pop_undo s : WFJ s -> WFJ (pop_undo s).
+Proof.
+  intros (Hwf & Hord & Hrep).
+  destruct (journal s) as [|e rest] eqn:Hj; [rewrite pop_undo_nil by assumption; split; [exact Hwf | split; [rewrite Hj; exact Hord | exact Hrep]]|].
+  split; [|split].
+  - (* WF *)
+    unfold WF. rewrite (pop_undo_journal s e rest Hj). intros sv sd sc Hin a Hsc.
+    assert (Hc : objs s a <> None) by (eapply Hwf; [rewrite Hj; right; exact Hin | exact Hsc]).
+    rewrite (pop_undo_cons s e rest Hj). cbv zeta.
+    assert (H1 : objs (undo e (with_journal s rest)) a <> None).
+    { apply undo_objs_mono; [| exact Hrep | exact Hc].
+      destruct e; auto.
+      - (* ECreate a0: a <> a0 because sc a0 = false *)
+        simpl in Hord. destruct Hord as [Hc0 _]. intros ->. rewrite (Hc0 sv sd sc Hin) in Hsc. discriminate.
+      - simpl in Hord. destruct Hord as [Hc0 _]. eapply Hc0; eauto. }
+    destruct (dirtied e); exact H1.
+  - rewrite (pop_undo_journal s e rest Hj). eapply jord_tail. exact Hord.
+  - rewrite pop_undo_cf. exact Hrep.
+Qed.
+
+Lemma WFJ_unwind_k k : forall s, WFJ s -> WFJ (unwind_k k s).
+Proof. induction k; intros s H; simpl; [exact H|]. apply IHk, WFJ_pop_undo, H. Qed.
+Lemma WFJ_unwind n s : WFJ s -> WFJ (unwind n s).
+Proof. apply WFJ_unwind_k. Qed.
+
+(** ---- unwind is monotone for [le] ---- *)
+Lemma le_pop_undo s s' : le s s' -> WFJ s -> le (pop_undo s) (pop_undo s').
+Proof.
+  intros HR (Hwf & Hord & Hrep).
+  destruct (journal s) as [|e rest] eqn:Hj.
+  - pose proof HR as (J&_). rewrite !pop_undo_nil by congruence. exact HR.
+  - eapply rel_pop_undo; eauto.
+    destruct e; simpl; auto. split; [reflexivity|]. intros a _ Hs.
+    eapply Hwf; [rewrite Hj; left; reflexivity|exact Hs].
+Qed.
+
+Lemma le_unwind_k k : forall s s', le s s' -> WFJ s -> le (unwind_k k s) (unwind_k k s').
+Proof.
+  induction k as [|k IH]; intros s s' HR HW; simpl; [exact HR|].
+  apply IH; [apply le_pop_undo; assumption | apply WFJ_pop_undo; exact HW].
+Qed.
+
+Lemma le_unwind n s s' : le s s' -> WFJ s -> le (unwind n s) (unwind n s').
+Proof. intros HR HW. unfold unwind. destruct HR as (J&R). rewrite <- J. apply le_unwind_k; [split; assumption|exact HW]. Qed.
+
+(** ---- op_ok ---- *)
+Definition op_ok (s s' : sdb) : Prop :=
+  WFJ s ->
+  (length (journal s) <= length (journal s'))%nat /\ le s (unwind (length (journal s)) s') /\ WFJ s'.
+
+Lemma op_ok_refl s : op_ok s s.
+Proof. intros H. split; [lia|]. split; [rewrite unwind_id; apply rel_refl | exact H]. Qed.
+
+Lemma op_ok_trans s s1 s2 : op_ok s s1 -> op_ok s1 s2 -> op_ok s s2.
+Proof.
+  intros H1 H2 HW. destruct (H1 HW) as (L1 & E1 & W1). destruct (H2 W1) as (L2 & E2 & W2).
+  split; [lia|]. split; [|exact W2].
+  rewrite (unwind_compose (length (journal s)) (length (journal s1)) s2 L1 L2).
+  eapply rel_trans; [exact E1|]. apply le_unwind; [exact E2 | exact W1].
+Qed.
+
+(** an op that leaves the journal alone and yields a refinement *)
+Lemma op_ok_le s s' : le s s' -> (WFJ s -> WFJ s') -> op_ok s s'.
+Proof.
+  intros HR HW W. pose proof HR as (J&_). split; [rewrite J; lia|]. split; [|auto].
+  rewrite J. rewrite unwind_id. exact HR.
 Qed.
